@@ -82,14 +82,17 @@ def exc_origin(tb):
     frames = traceback.extract_tb(tb)
     if not frames:
         return 'harness', '?'
+    def real(name):
+        # '<frozen codecs>', '<string>' ... are not files (realpath would resolve them relative to the cwd)
+        return name if name.startswith('<') else os.path.realpath(name)
     f = frames[-1]
-    fn = os.path.realpath(f.filename)
+    fn = real(f.filename)
     where = '%s:%s' % (os.path.basename(f.filename), f.name)
     if fn.startswith(os.path.realpath(env.REPO) + os.sep):
         return 'repo', where
     # innermost frame in stdlib but called from repo code (e.g. re, json)?
     for f in reversed(frames):
-        fn = os.path.realpath(f.filename)
+        fn = real(f.filename)
         if fn.startswith(os.path.realpath(env.VERIF) + os.sep):
             return 'harness', where
         if fn.startswith(os.path.realpath(env.REPO) + os.sep):
